@@ -81,7 +81,7 @@ def kv_to_md(delta_study, delta_trials):
 
 
 # what a failing algorithm's exception may carry: a message, nothing, a number, (errno, text), a message and a tuple
-FAIL_ARGS = [('scripted failure',), (7,), (), (2, 'No such file'), ('bad shape', (3, 4))]
+FAIL_ARGS = [('scripted failure',), (7,), (), (2, 'No such file'), ('bad shape', (3, 4)), ('text that is not valid unicode: \ud800',)]
 
 
 class Scripted(pythia.Policy):
@@ -417,12 +417,13 @@ def apply_rpc(serv, holder, rpc):
       r = serv.CheckTrialEarlyStoppingState(vs.CheckTrialEarlyStoppingStateRequest(trial_name=trial_name(o, sid, tid)))
       return ('Done', 'RpStop', bool(r.should_stop))
     if kind == 'UpdateMetadata':
-      _, o, sid, smd, tmd = rpc
+      o, sid, smd, tmd = rpc[1:5]
       req = vs.UpdateMetadataRequest(name=study_name(o, sid))
       for kv in smd:
         req.delta.add().metadatum.CopyFrom(mk_kv(kv))
+      spell = {'': '%d', 'z': '0%d', 'p': '+%d', 's': '%d '}[rpc[5] if len(rpc) > 5 else '']     # another accepted spelling of the trial ids
       for tid, kv in tmd:
-        u = req.delta.add(trial_id=str(tid))
+        u = req.delta.add(trial_id=spell % tid)
         u.metadatum.CopyFrom(mk_kv(kv))
       r = serv.UpdateMetadata(req)
       return ('Done', 'RpMdError' if r.error_details else 'RpEmpty', None)
@@ -796,7 +797,7 @@ class Gen:
         out.append(('CheckEarlyStop', r.random() < 0.6, o, sid, tid, oracle))
       elif u < 0.72:
         tmd = [(r.randrange(1, mx + 1) if r.random() < 0.85 else mx + 3, kv) for kv in gen_md(r, 2)]
-        out.append(('UpdateMetadata', o, sid, gen_md(r, 2), tmd))
+        out.append(('UpdateMetadata', o, sid, gen_md(r, 2), tmd) + self.spelling())
       elif u < 0.745:
         out.append(('SetStudyState', o, sid, r.choice(['SS_ACTIVE', 'SS_INACTIVE', 'SS_COMPLETED', 'SS_ACTIVE', 'SS_ACTIVE'])))
       elif u < 0.765:
